@@ -358,6 +358,7 @@ class Ctx:
         self.stats = Stats()
         self.solver = z3.Solver()
         self.solver.set('timeout', timeout_ms)
+        self.main_solver = self.solver
         self.timeout_ms = timeout_ms
         self.dec = Decisions()
         self.dec_stack = []
@@ -370,6 +371,7 @@ class Ctx:
         self.no_merge = set()
         self.mergeable_cache = {}
         self.events = []          # observable events recorded by stubs (per path)
+        self.day_terms = []
         self.assumptions = set()
         self.used_models = set()
         self.map_order = 'fixed'  # or 'all'
@@ -386,6 +388,9 @@ class Ctx:
         self.dec = Decisions()
         self.dec_stack = []
         self.merge_cache = {}
+        self.merge_depth = 0
+        self.depth = 0
+        self.solver = self.main_solver
         n = 0
         while True:
             self._begin_path()
@@ -411,6 +416,7 @@ class Ctx:
         self.events = []
         self.depth = 0
         self.models_cache = []
+        self.day_terms = []
 
     def fresh(self, name, sort):
         if self.merge_depth:
@@ -752,6 +758,14 @@ class Ctx:
             self.models_cache = saved_models
             self.solver = saved_solver
             return None
+        except BaseException:
+            self.dec = outer
+            self.dec_stack.pop()
+            self.merge_depth -= 1
+            self.events = saved_events
+            self.models_cache = saved_models
+            self.solver = saved_solver
+            raise
         self.dec = outer
         self.dec_stack.pop()
         self.merge_depth -= 1
